@@ -32,12 +32,17 @@ def run_timeout(seconds: float, func, *args, **kwargs):
             ctypes.pythonapi.PyThreadState_SetAsyncExc(
                 ctypes.c_long(thread.ident), ctypes.py_object(KeyboardInterrupt()))
             thread.join()
-        raise TimeoutError
+        raise _Expired
 
     # This call flow ensure that the memory of the "killed" thread is cleared
+    # (a private exception type marks the expiry, so that a TimeoutError raised by the function itself is re-raised)
     try:
         return _inner_run()
-    except TimeoutError:
+    except _Expired:
         pass
     gc.collect()
     raise TimeoutError
+
+
+class _Expired(Exception):
+    pass
